@@ -11,6 +11,10 @@ class NumberUnaryExpr(number_unary_expr.NumberUnaryExpr):
         if self._unary_op.raw_text == '+':
             return self._operand.value
         elif self._unary_op.raw_text == '-':
-            return -self._operand.value
+            value = self._operand.value
+            if isinstance(value, decimal.Decimal) and value:
+                # exact: the unary minus operator rounds to the context precision, so a written -x would not read back as -x
+                return value.copy_negate()
+            return -value
         else:
             assert False
